@@ -42,6 +42,8 @@ CHECKS.update({
             "4/C13", "Thorough tier covers every float32 bit pattern for E4M3 and E5M2 (exhaustive) and all 168 formats on structured inputs.", "float64 exactness on float32 values"),
     "C14": ("random source substituted by an enumerator of all 2^srbits draws: probabilities are counted exactly; spy on the real generator for independence",
             "4/C14", "All draws enumerated for every judged (input, format, srbits); inputs sampled.", "torch.randint is the only random source"),
+    "C16": ("differential monitor on generated programs: real unit_scale() (TorchDynamo) vs an independent DSL interpreter applying the User-Guide recipe (networkx residual analysis); re-initialisation and non-destructiveness checks; mechanism attribution by alternative recipes",
+            "4/C16", "Held on generated programs (1-16 ops, 0-4 residual blocks); programs that Dynamo splits are excluded and counted.", "unit_scaling.functional as established by C01-C06"),
 })
 
 PENDING = {}
